@@ -494,7 +494,26 @@ def monOp1 (m : Mon) (op : String) (args : List String) (impl : List String) (tr
           | some r => r.whitelist || (r.rmAttrs.getD []).contains t || (t = 0 && r.rmAttrs.isSome) ||
                       (t = 26 && (r.rmVAttrs.isSome || r.modVAttrs.isSome)) || ((r.modAttrs.getD []).any (·.t = t)) ||
                       ((r.addAttrs.getD []).any (·.t = t)) || ((r.supAttrs.getD []).any (·.t = t))
-        if res.attrs.any (fun a => a.v.length > 253) then (m, "bad C06:attribute-value-longer-than-253-after-rewrite")
+        -- C01: what removeVendorAttribute / whitelistVendorAttribute V:S name is gone (resp. is all that is left) in every
+        -- well-formed Vendor-Specific attribute of V, unless a later stage of the same block puts such things back
+        let vendorRmBad : Bool := match rw with
+          | none => false
+          | some r =>
+            (r.addAttrs.isNone && r.supAttrs.isNone && r.modVAttrs.isNone && !(r.rmAttrs.getD []).contains 26) &&
+            (match r.rmVAttrs with
+             | none => false
+             | some l =>
+               res.attrs.any fun a =>
+                 a.t = 26 && a.v.length > 4 &&
+                 (let ve := beVal (a.v.take 4)
+                  let forV := l.filter (·.1 = ve)
+                  -- the code uses the entries from the first one of this vendor on; with a single vendor in the list that is all of them
+                  !forV.isEmpty && (l.all (·.1 = ve)) && !(forV.any (·.2 = 256)) &&
+                  match subsOf (a.v.length + 1) (a.v.drop 4) with
+                  | none => false
+                  | some subs => subs.any fun (st, _) => (forV.any (·.2 = st.toNat)) != r.whitelist))
+        if vendorRmBad then (m, "bad C01:vendor-sub-attribute-named-by-a-removal-rule-survived-or-whitelisted-one-missing")
+        else if res.attrs.any (fun a => a.v.length > 253) then (m, "bad C06:attribute-value-longer-than-253-after-rewrite")
         else if (res.attrs.filter fun a => !touched a.t) != (inp.filter fun a => !touched a.t) then (m, "bad C01:untouched-attributes-not-preserved-by-rewrite")
         else (m, "ok")
     | _, _ => (m, if (headToks out).head? == some "rv=0" then "ok" else "bad-op")
